@@ -952,7 +952,10 @@ def check_predict(ctx, name, drv):
         if key in seen:
             continue
         seen.add(key)
+        # sorted(...) of the lists, or a local copy sorted in place (x = list(a); x.extend(b); x.sort())
         src = getattr(arg, "sorted_from", None)
+        if src is None and isinstance(arg, ListV) and getattr(arg, "is_sorted", False):
+            src = arg
         is_sorted = isinstance(arg, ListV) and getattr(arg, "is_sorted", False) and src is not None
         ctx.check(is_sorted, "C03.h IGNORE-POINT", key + "|sorted", fm[-1].loc(), "the list handed to the formatter is sorted(...)", found=repr(arg))
         if not is_sorted:
@@ -961,9 +964,12 @@ def check_predict(ctx, name, drv):
             """the driver-output lists a list value is made of: a + b (parts), a += b (extended), list(a), a[:] ..."""
             out = []
             ps = getattr(x, "parts", None)
+            lo = getattr(x, "list_of", None)
             if ps is not None:
                 for q in ps:
                     out.extend(_leaf_lists(q))
+            elif isinstance(lo, ListV):
+                out.extend(_leaf_lists(lo))  # list(a): a copy of a
             else:
                 out.append(x)
             for q in getattr(x, "extended", []) or []:
